@@ -108,10 +108,23 @@ func genC18(seed uint64, run int, tier string) Scenario {
 			cb.ContainsRe = strings.ToLower(w) + `\s?[a-z]*`
 		case 1:
 			cb.ContainsRe = `(?i)` + w[:2] + `[a-z]+`
+		case 2:
+			if r.IntN(2) == 0 {
+				// a pattern with an upper-case class (which a lower-cased copy of its source would turn
+				// into its opposite)
+				cb.ContainsRe = `(^|\W)` + strings.ToLower(w) + pick(r, ``, `\S*`, `\D`)
+
+				break
+			}
+
+			fallthrough
 		default:
 			cb.Contains = pick(r, w, strings.ToLower(w), strings.ToUpper(w))
 		}
 		cb.Sensitive = r.IntN(4) == 0
+		if cb.Sensitive && strings.HasPrefix(cb.ContainsRe, `(^|\W)`) {
+			cb.ContainsRe = strings.Replace(cb.ContainsRe, strings.ToLower(w), w, 1)
+		}
 		if cb.Sensitive && cb.ContainsRe != "" && !strings.HasPrefix(cb.ContainsRe, "(?i)") {
 			cb.ContainsRe = w + `\s?[a-z]*`
 		}
@@ -149,6 +162,11 @@ func genC18(seed uint64, run int, tier string) Scenario {
 			// still holds at the next evaluation, whenever that is, and the operation must end with
 			// the once error (at once if the device has nothing more to say: the callback is silent)
 			cb.Once, cb.NoReset, cb.NotContains, cb.Write = true, true, "", ""
+		}
+		if cb.Write == "" && r.IntN(4) == 0 {
+			// a callback without a function (allowed: "you might not want to set a callback on
+			// the done stage"): its trigger, once mark, reset and next timeout work as ever
+			cb.NilFunc = true
 		}
 		op.Callbacks = append(op.Callbacks, cb)
 	}
@@ -378,7 +396,9 @@ func runC18(env *Env, s Scenario) {
 				}
 				triggered[i] = true
 			}
-			fired = append(fired, cb.Name+"|"+b)
+			if !cb.NilFunc {
+				fired = append(fired, cb.Name+"|"+b)
+			}
 			if cb.Complete {
 				wantClass, wantResult = "", fb
 
